@@ -12,7 +12,9 @@ quiescent points (exact: testing/synctest bubble) records List / GetKey / Index.
 subscriber's event stream.  The Lean driver keeps the inputs itself, recomputes `specContents`
 and runs the verified monitor on every stream; the two outputs are compared line by line.
 Known finding F6 (keys moving between parents without a barrier) is confined to `u*` lines of
-cases flagged `f6`; every other difference is a VIOLATION.
+cases flagged `f6`; every other difference is a VIOLATION.  Stream `exact` ties Model.lean itself to
+the code: the model is executed on the same history (sequential schedule) and must produce exactly
+the real events, contents and index lookups at every step (F6 included).
 """
 import os
 
@@ -185,9 +187,17 @@ def run_stream(ctx, stream, ncases):
             if real2:
                 case_lines, idx, a, b = real2[0]
             fp, what = classify(case_lines[idx], a, b)
-            ctx.violation(fp, what, {"stream": stream, "ops": case_lines, "source": tag,
-                                     "first_difference_at_op": idx, "implementation": a, "specification": b,
-                                     "trace": ctx.read_lines(impl2 + ".trace")[:200] if ok2 and real2 else None}, True)
+            rep = {"stream": stream, "ops": case_lines, "source": tag,
+                   "first_difference_at_op": idx, "implementation": a, "specification": b,
+                   "trace": ctx.read_lines(impl2 + ".trace")[:200] if ok2 and real2 else None}
+            if stream == "exact" and fp != "krt:crash":
+                # the runtime model (object of the runtime theorems) no longer behaves like the code: a broken
+                # correspondence, not by itself a violation of the property (the other streams search for one)
+                ctx.tie_broken("correspondence:exact",
+                               "Model.lean and the real manyCollection differ at op '%s'\n impl : %s\n model: %s"
+                               % (case_lines[idx], a[:500], b[:500]), rep)
+            else:
+                ctx.violation(fp, what, rep, True)
     ctx.log("stream %s: %d cases, %d lines, %s%s" % (
         stream, st["cases"], st["ops"], "agree" if st["agree"] else "DIFFER",
         (" (known class %s reproduced in %d flagged cases)" % (known_class(stream)[0], st["known_f6_cases"]))
@@ -230,7 +240,9 @@ def run(ctx):
                 "selectsNonEmpty, label, namespace index, generic; optional gating on the first fetch), 25% observed through a "
                 "second chained collection. Streams join/joinr: JoinCollection over 2-3 static collections with overlapping "
                 "keys (same key changed by one collection at a time between barriers in join; back to back in joinr). Stream mem: "
-                "Create/Update/Delete/Get/List/handlers on pilot/pkg/config/memory. Observations = List/GetKey/Index.Lookup at "
+                "Create/Update/Delete/Get/List/handlers on pilot/pkg/config/memory. Stream exact: one source change per step "
+                "with a barrier after each (claims may overlap when the transformation has no fetch), compared with the runtime "
+                "model step by step. Observations = List/GetKey/Index.Lookup at "
                 "quiescent points + every subscriber's stream; distinct = hash of (ops, observations); non-trivial = at least one op")
     ctx.assumptions = [
         "the derived collection's inputs are krt static collections (informer-backed collections are not exercised)",
@@ -251,6 +263,9 @@ def run(ctx):
     run_stream(ctx, "join", ctx.n(1200, 60000))
     run_stream(ctx, "joinr", ctx.n(300, 6000))
     run_stream(ctx, "mem", ctx.n(600, 15000))
+    # last: the exact correspondence of the runtime model (a difference here with no violation above ends as
+    # `no-failing-input-found`)
+    run_stream(ctx, "exact", ctx.n(1500, 40000))
     for stream in ("krt", "krtf6"):
         run_oracle(ctx, stream)
 
